@@ -18,7 +18,7 @@ from sim.core import sub_rng
 
 PROP = "C02"
 LEVEL = "exploration"
-TIERS = {"quick": dict(runs=20000, chunk=250), "thorough": dict(budget_s=480, max_runs=2_000_000, chunk=1000)}
+TIERS = {"quick": dict(runs=20000, chunk=250), "thorough": dict(budget_s=480, max_runs=2_000_000, chunk=150)}
 RULE = ("one case = a generated module program: 1-3 source signals (Python float, vector<=4, 2x2; all-real or all-complex "
         "holomorphic), 0-2 pre-allocated buffer signals written through slices, 1-8 harness modules (affine multi-in/multi-out, "
         "tanh / square, product, sum returning the same array object twice) wired into a DAG with fan-out, a signal used twice "
@@ -27,7 +27,7 @@ RULE = ("one case = a generated module program: 1-3 source signals (Python float
         "double sensitivity, print_timing under clock jumps, permuted sig_in/sig_out; distinct = distinct abstract traces "
         "(module types in execution order, nesting, slice kinds, per-cycle seed pattern); non-trivial = the DAG has fan-out or a "
         "shared/sliced signal or more than one cycle")
-PROBES = ["matrix_signal_dyad_sensitivity", "same_object_for_two_inputs", "signal_used_twice", "output_into_slice", "nested_depth2", "unseeded_branch_skipped",
+PROBES = ["built_by_append", "inner_network_extended_after_nesting", "matrix_signal_dyad_sensitivity", "same_object_for_two_inputs", "signal_used_twice", "output_into_slice", "nested_depth2", "unseeded_branch_skipped",
           "second_sensitivity_without_reset", "fan_out", "index_array_input", "python_float_signal", "keep_alloc_source",
           "none_block", "order_differs_from_creation", "complex_program", "intermediate_seeded", "partial_seed_multi_output"]
 FAULT_KINDS = ["clock_jump", "set_order_permutation"]
@@ -162,7 +162,7 @@ def gen(rng, idx, tier):
     nbuf = int(rng.integers(0, 3))
     matrix_flavour = bool(rng.random() < 0.3) and not cplx      # matrix-valued signals with DyadCarrier sensitivities
     mods = []
-    for _ in range(int(rng.integers(1, 9))):
+    for _ in range(int(rng.integers(1, 15 if tier == "thorough" else 9))):
         t = str(rng.choice(["affine", "affine", "affine", "elt", "prod", "sum2"] + (["diagmat", "diagmat", "addmat", "bilin", "bilin"] if matrix_flavour else [])))
         nin = int(rng.integers(1, 4)) if t == "affine" else (1 if t in ("elt", "diagmat", "bilin") else 2)
         nout = int(rng.integers(1, 3)) if t == "affine" else 1
@@ -176,7 +176,7 @@ def gen(rng, idx, tier):
                                     as_float=bool(rng.random() < 0.15)) for _ in range(nout)],
                          zero_block=bool(rng.random() < 0.3), none_for_zero=bool(rng.random() < 0.7)))
     ops = []
-    for _ in range(int(rng.integers(1, 5))):
+    for _ in range(int(rng.integers(1, 8 if tier == "thorough" else 5))):
         ops.append(dict(inseed=int(rng.integers(1 << 30)), seedsel=[int(s) for s in rng.integers(0, 64, size=int(rng.integers(1, 4)))],
                         wseed=int(rng.integers(1 << 30)), double=bool(rng.random() < 0.3),
                         sens_without_seed=bool(rng.random() < 0.1)))
@@ -469,8 +469,10 @@ def topo_order(n, deps, seed):
     return order
 
 
-def nest(modlist, seed, Network, print_timing, depth_probe):
-    """ wrap random contiguous sub-lists into nested Networks (depth <= 2) """
+def nest(modlist, seed, Network, print_timing, depth_probe, deferred):
+    """ wrap random contiguous sub-lists into nested Networks (depth <= 2).  Some inner networks are first created with
+    only the head of their sub-list; the tail is appended (Network.append) *after* the outer network has been built --
+    the incremental construction style of the documentation ("appending modules to a network") """
     rng = sub_rng(0x22, seed)
     items = list(modlist)
     depth = 0
@@ -479,10 +481,17 @@ def nest(modlist, seed, Network, print_timing, depth_probe):
             break
         lo = int(rng.integers(0, len(items) - 1))
         hi = int(rng.integers(lo + 1, len(items))) + 1
-        sub = Network(items[lo:hi], print_timing=print_timing if rng.random() < 0.5 else False)
+        members = items[lo:hi]
+        pt = print_timing if rng.random() < 0.5 else False
+        if len(members) >= 2 and rng.random() < 0.5:
+            cut = int(rng.integers(1, len(members)))
+            sub = Network(members[:cut], print_timing=pt)
+            deferred.append((sub, members[cut:]))
+        else:
+            sub = Network(members, print_timing=pt)
         items = items[:lo] + [sub] + items[hi:]
         depth += 1
-        if level == 1 and any(isinstance(x, Network) for x in sub.mods):
+        if level == 1 and any(isinstance(x, Network) for x in members):
             depth_probe.append(2)
     return items, depth
 
@@ -534,11 +543,21 @@ def run(case):
     out = io.StringIO()
     try:
         with contextlib.redirect_stdout(out):
+            deferred = []
             if case["nest"]:
-                items, depth = nest([mods[j]["mod"] for j in order], case["nest_seed"], Network, pt, depth2)
+                items, depth = nest([mods[j]["mod"] for j in order], case["nest_seed"], Network, pt, depth2, deferred)
             else:
                 items, depth = [mods[j]["mod"] for j in order], 0
-            net = Network(items, print_timing=pt)
+            if case["nest_seed"] % 3 == 0:
+                net = Network(print_timing=pt)            # incremental construction of the outer network
+                for it in items:
+                    net.append(it)
+                probe("built_by_append")
+            else:
+                net = Network(items, print_timing=pt)
+            for sub, tail in deferred:                    # inner networks extended after they were nested
+                sub.append(*tail)
+                probe("inner_network_extended_after_nesting")
     except Exception as ex:  # noqa
         viol("exception-build", f"Network construction raised {type(ex).__name__}: {str(ex)[:200]}", 0)
         return res
